@@ -297,6 +297,10 @@ def run(ctx, only_scripts=None):
             v["key"] = v["key"].replace("C11:settings-do-not-shape-files", "C17:end-to-end").replace("C11:", "C17:")
             violations.append(v)
         stats["e2e_runs_with_test_recordings"] = len(e2e_runs)
+    if prop == "C12" and only_scripts is None:
+        rs_viol, rs_stats = real_sinks(ctx, tier)
+        violations += rs_viol
+        stats["real_recorders_on_all_sinks"] = rs_stats
     raw_stats = {}
     if prop == "C13" and only_scripts is None:
         rv, raw_stats = raw_frames(ctx, tier)
@@ -352,6 +356,70 @@ def run(ctx, only_scripts=None):
         clauses_of_other_properties_fired=others,
     )
     return vlib.finish(ctx, violations, coverage, ASSUME)
+
+
+def real_sinks(ctx, tier):
+    """C12 with REAL CPTVFileRecorders on the motion, continuous and test sinks; start / rename / pruning failures are
+    provoked through the file system (the output directory is renamed away and back).  Ends with a long quiet stretch
+    and one isolated motion frame whose recording must be exactly what C02/C03 demand."""
+    import subprocess
+    rng = ctx.rng
+    scripts = []
+    for i in range(40 if tier == "quick" else 600):
+        fps = rng.choice([1, 2, 3])
+        preview, trig = rng.choice([0, 1, 2]), rng.choice([1, 1, 2])
+        mn = rng.choice([0, 1, 2]); mx = mn + rng.choice([1, 2, 4])
+        steps = []
+        for k in range(rng.randint(30, 90)):
+            r = rng.random()
+            if r < 0.06:
+                steps.append(dict(a="breakdir"))
+            elif r < 0.12:
+                steps.append(dict(a="fixdir"))
+            elif r < 0.16:
+                steps.append(dict(a="bad"))
+            elif r < 0.19:
+                steps.append(dict(a="reset"))
+            elif r < 0.23:
+                steps.append(dict(a="snapreq"))
+            else:
+                steps.append(dict(a="frame", motion=rng.random() < 0.5))
+        steps.append(dict(a="fixdir"))
+        N, MinF, MaxF = preview * fps + trig, mn * fps, mx * fps
+        quiet = N + MaxF + 25          # everything that was open is over, the test recording (21 frames) too
+        steps += [dict(a="frame", motion=False) for _ in range(quiet)]
+        steps += [dict(a="frame", motion=True) for _ in range(trig)]        # a run of exactly trigger-frames
+        nframes = sum(1 for s in steps if s["a"] == "frame")
+        blip = nframes                                                     # the frame that completes the run
+        steps += [dict(a="frame", motion=False) for _ in range(MinF + 3)]
+        scripts.append(dict(Fps=fps, Preview=preview, Trig=trig, Min=mn, Max=mx, const=rng.random() < 0.6, steps=steps, blip=blip))
+    binp = ctx.go_test_build("./cmd/thermal-recorder", "tr.test")
+    inp, outp = ctx.path("run", "realsinks.json"), ctx.path("run", "realsinks.ndjson")
+    json.dump(dict(scripts=scripts), open(inp, "w"))
+    r = subprocess.run([binp, "-test.run", "^TestVerifRealSinks$"], env=dict(os.environ, VERIF_SCRIPT=inp, VERIF_OUT=outp),
+                       capture_output=True, text=True, timeout=1800)
+    if r.returncode != 0 or not os.path.exists(outp):
+        raise vlib.Infra("real-sinks driver failed: " + (r.stdout + r.stderr)[-2500:])
+    events = vlib.read_ndjson(outp)
+    for e in events:
+        sc = scripts[e["script"]]
+        # with trigger-frames = 2 the run of two motion frames: the trigger frame is the second one; last motion = trigger
+        e["blip"] = sc["blip"]
+        e["last"] = e.get("last") or []
+    tp = ctx.path("run", "realsinks.trace.ndjson")
+    vlib.write_ndjson(tp, events)
+    viol, nev = judge(ctx, tp, "realsinksmon")
+    out, seen = [], set()
+    for (line, tags) in viol:
+        for tg in tags:
+            if tg in seen:
+                continue
+            seen.add(tg)
+            e = events[line - 1]
+            rp = vlib.save_replay(ctx, tg.replace(":", "_"), dict(family="proc", property="C12", clause=tg, script=scripts[e["script"]], observed=e))
+            out.append(dict(key=tg, replay=rp, what=json.dumps(e)[:300]))
+    return out, dict(scripts=len(scripts), panics=sum(1 for e in events if e["panic"]),
+                     final_recordings_checked=sum(1 for e in events if e["last"]))
 
 
 def raw_frames(ctx, tier):
